@@ -21,6 +21,7 @@ const DEVIATIONS: &[&str] = &[
     "never-approved",
     "approved-other-payload",
     "approved-other-id",
+    "approved-boundary-shifted",
     "approved-other-source-address",
     "approved-for-other-contract",
     "source-chain-not-hub",
@@ -262,6 +263,13 @@ pub fn run(ctx: &Ctx, rep: &mut Report) {
                         Attempt { approve: Some((HUB_CHAIN.to_vec(), did.clone(), hub.clone(), c2.payload(), true)), deliver: (HUB_CHAIN.to_vec(), did.clone(), hub.clone(), payload.clone()) }
                     }
                     "approved-other-id" => Attempt { approve: Some((HUB_CHAIN.to_vec(), [did.clone(), b"'".to_vec()].concat(), hub.clone(), payload.clone(), true)), deliver: (HUB_CHAIN.to_vec(), did.clone(), hub.clone(), payload.clone()) },
+                    "approved-boundary-shifted" => {
+                        // approved for (hub chain + d + p, q), delivered as (hub chain, p + d + q)
+                        let d = *rng.pick(&[&b"_"[..], b"-", b":", b"/", b"\0", b"|", b""]);
+                        let q = did.clone();
+                        let shifted = [b"p".to_vec(), d.to_vec(), q.clone()].concat();
+                        Attempt { approve: Some(([HUB_CHAIN.to_vec(), d.to_vec(), b"p".to_vec()].concat(), q, hub.clone(), payload.clone(), true)), deliver: (HUB_CHAIN.to_vec(), shifted, hub.clone(), payload.clone()) }
+                    }
                     "approved-other-source-address" => Attempt { approve: Some((HUB_CHAIN.to_vec(), did.clone(), [hub.clone(), b"2".to_vec()].concat(), payload.clone(), true)), deliver: (HUB_CHAIN.to_vec(), did.clone(), hub.clone(), payload.clone()) },
                     "approved-for-other-contract" => Attempt { approve: Some((HUB_CHAIN.to_vec(), did.clone(), hub.clone(), payload.clone(), false)), deliver: (HUB_CHAIN.to_vec(), did.clone(), hub.clone(), payload.clone()) },
                     "source-chain-not-hub" => {
@@ -586,5 +594,5 @@ pub fn run(ctx: &Ctx, rep: &mut Report) {
     req.extend(KINDS.iter().map(|k| format!("conforming:{}", k)));
     rep.notes.insert("required".into(), json!(req));
     rep.notes.insert("token_mode".into(), json!("native"));
-    rep.notes.insert("rule".into(), json!("per universe 5 rounds: a conforming delivery (transfer to a service-deployed token, release of a locked canonical asset, transfer with data to a destination application, remote deploy; origin chain drawn from the currently trusted chains while one chain's trust flips between rounds) and, before it, 13 of 30 single deviations, each delivered at a checkpoint together with the approval that matches it in every other respect: never approved, approved for other payload / id / source address / contract, source chain or source address not the hub's, send-to-hub or out-of-range outer type, unsupported inner type, type words whose low byte is a supported tag but whose higher bytes are not zero, origin never trusted or no longer trusted, unknown token, undecodable recipient or minter (garbage, truncated, or well-formed XDR of a value that is not an address), amounts 2^127 / 2^128-1 / 2^128+1000 (bits 128..191 set) / 2^255, truncated / padded / non-canonical-offset payload, padded inner message, insufficient custody, failing application, deploy for a taken id or with empty name/symbol; then the conforming delivery (effects and consumption checked), the same delivery again, and again after re-approval (one time in three after ledger advancement up to the expiry of every temporary entry). distinct = (conforming kind, deviation, outcome)"));
+    rep.notes.insert("rule".into(), json!("per universe 5 rounds: a conforming delivery (transfer to a service-deployed token, release of a locked canonical asset, transfer with data to a destination application, remote deploy; origin chain drawn from the currently trusted chains while one chain's trust flips between rounds) and, before it, 13 of 31 single deviations, each delivered at a checkpoint together with the approval that matches it in every other respect: never approved, approved for other payload / id / source address / contract, approved for a (chain, id) pair that only coincides when joined with a delimiter, source chain or source address not the hub's, send-to-hub or out-of-range outer type, unsupported inner type, type words whose low byte is a supported tag but whose higher bytes are not zero, origin never trusted or no longer trusted, unknown token, undecodable recipient or minter (garbage, truncated, or well-formed XDR of a value that is not an address), amounts 2^127 / 2^128-1 / 2^128+1000 (bits 128..191 set) / 2^255, truncated / padded / non-canonical-offset payload, padded inner message, insufficient custody, failing application, deploy for a taken id or with empty name/symbol; then the conforming delivery (effects and consumption checked), the same delivery again, and again after re-approval (one time in three after ledger advancement up to the expiry of every temporary entry). distinct = (conforming kind, deviation, outcome)"));
 }
